@@ -143,6 +143,26 @@ def run(ctx):
                           "%s emits %s and then %s for the same element without re-emitting its attachment: replay's %s drops the attachment (%s) that the live state keeps, so "
                           "the patch does not reproduce the post-state" % (f.name, dname, partner[dname], dname, cascading[dname]), site=f.loc(f.block_line(d)))
 
+    # ---- R9 per-plane differ independence
+    rep.rule("C04.R9", "A4/A7 the differ of one plane decides from that plane only (the applier never cascades across planes, so a "
+                       "differ that suppresses ops because of another plane's content emits unreplayable patches)")
+    # plane -> store content the differ function may consult (fields read directly or through GraphStore accessors); confirmed by reading
+    PLANES = {"diff_nodes": {"nodes"}, "diff_node_attachments": {"nodes", "node_attachments", "node_attachment"},
+              "diff_edges": {"edge_attachments", "edge_attachment"}, "diff_edge_attachments": {"edge_attachments", "edge_attachment"},
+              "edges_by_id": {"edges_from"}}
+    for nm, allowed in PLANES.items():
+        f = prog.fn(TP + nm)
+        fs_ = [f] + [prog.fns[c] for c in prog.closures_in(f.id)]
+        consulted = set(read_set(fs_, GS))
+        for g in fs_:
+            for bi, t in g.calls():
+                c = g.callee_of(t) or ""
+                if c.startswith(GS + "::"):
+                    consulted.add(c.rsplit("::", 1)[-1])
+        extra = consulted - allowed - {"warp_id"}
+        rep.check(not extra, "C04.R9", "differ-plane:%s" % nm, "consults only %s" % sorted(consulted or {"(its edge-record maps)"}),
+                  "%s consults store content of another plane (%s): an op suppressed because of it is not reproduced by the non-cascading applier" % (nm, sorted(extra)), site=f.loc())
+
     # ---- R2
     ao = prog.fn(TP + "apply_ops_to_state")
     tr, ext = tree(prog, [ao])
